@@ -286,7 +286,9 @@ class Server(object):
                               'for %r' % (pid, app.waiting))
 
     def _plugins_pending(self, app):
-        return any(v > 0 for v in app.plugin_outstanding.values())
+        skip = app.beh.get('no_wait_plugins') or ()
+        return any(v > 0 for k, v in app.plugin_outstanding.items()
+                   if k not in skip)
 
     def _on_enc_response(self, app, body):
         enc = app.enc
